@@ -48,7 +48,21 @@ abbrev KV := List (String × Val)
 /-- leaf type tags of the generated grammar -/
 inductive Ty where
   | int | str | bool | float | optInt | listInt
+  | optListInt      -- Optional[List[int]]
+  | optDictStrInt   -- Optional[Dict[str, int]]
+  | optTupleIntStr  -- Optional[Tuple[int, str]]
+  | optLitAB        -- Optional[Literal['a', 'b']]
 deriving DecidableEq, Repr, Inhabited
+
+/-- the annotation is `Optional[...]` of ANYTHING (`is_optional(annotation)`, no reference type) -/
+def isOptTy : Ty → Bool
+  | .optInt | .optListInt | .optDictStrInt | .optTupleIntStr | .optLitAB => true
+  | _ => false
+
+/-- `ActionTypeHint.supports_append`: a sequence type, or a Union with a sequence member -/
+def hasPlus : Ty → Bool
+  | .listInt | .optListInt => true
+  | _ => false
 
 /-! ## parser spec trees -/
 
@@ -162,6 +176,22 @@ def adapt (ld : String → Val) : Ty → Val → Option Val
   | .listInt, v => match resolve ld v with
       | .list xs => if allInts xs then some (.list xs) else none
       | _ => none
+  | .optListInt, v => match resolve ld v with
+      | .list xs => if allInts xs then some (.list xs) else none
+      | .null => some .null
+      | _ => none
+  | .optDictStrInt, v => match resolve ld v with
+      | .dict kvs => if allInts (kvs.map (·.2)) then some (.dict kvs) else none
+      | .null => some .null
+      | _ => none
+  | .optTupleIntStr, v => match resolve ld v with
+      | .list [.int i, .str s] => some (.list [.int i, .str s])
+      | .null => some .null
+      | _ => none
+  | .optLitAB, v => match v with
+      | .str s => if s = "a" || s = "b" then some (.str s) else (match ld s with | .null => some .null | _ => none)
+      | .null => some .null
+      | _ => none
 
 /-! ## subcommand selection (`_ActionSubCommands.get_subcommands`) -/
 
@@ -260,7 +290,7 @@ def implicitClass (imp : Option String) (cls : Choices) : Option Fields :=
 
 def chkLeaf (ld : String → Val) (pre : Path) (cut : Nat) (nullOk : Bool) (ty : Ty) (v : Val) : R :=
   match v with
-  | .null => if nullOk || ty = .optInt then .ok () else .error (.type pre cut)
+  | .null => if nullOk || isOptTy ty then .ok () else .error (.type pre cut)
   | v => if (adapt ld ty v).isSome then .ok () else .error (.type pre cut)
 
 mutual
@@ -389,7 +419,7 @@ def flatten (level pre : String) : Fields → List Act
   | (name, node) :: r => flattenNode level pre name node ++ flatten level pre r
 def flattenNode (level pre name : String) : Node → List Act
   | .leaf ty req _ =>
-    [⟨level, pre ++ name, (pre ++ name) :: (if ty = .listInt then [pre ++ name ++ "+"] else []), .arg, req⟩]
+    [⟨level, pre ++ name, (pre ++ name) :: (if hasPlus ty then [pre ++ name ++ "+"] else []), .arg, req⟩]
   | .classArg req _ _ => [⟨level, pre ++ name, [pre ++ name], .cls, req⟩]
   | .listOf req it =>
     [⟨level, pre ++ name, [pre ++ name, pre ++ name ++ "+"], if itemIsClass it then .cls else .arg, req⟩]
@@ -451,19 +481,25 @@ deriving Repr, Inhabited
 /-- `ActionsContainer.add_argument("--" ++ k, type=ty, default=d | required=True)` for a typed argument:
     the action (an `--k+` option is added for list types) and what goes into `required_args` -/
 def addArgument (name k : String) (ty : Ty) (d : Option Val) : Entry × List String :=
-  (⟨name, k, k :: (if ty = .listInt then [k ++ "+"] else []), ty, d.getD .null⟩, if d.isNone then [k] else [])
+  (⟨name, k, k :: (if hasPlus ty then [k ++ "+"] else []), ty, d.getD .null⟩, if d.isNone then [k] else [])
 
 /-- style 1: `parser.add_argument("--key.name", ...)` for every field -/
 def declDotted (key : String) (fields : List Field) : Table :=
   let rs := fields.map fun f => addArgument f.name (key ++ "." ++ f.name) f.ty f.default
   ⟨rs.map (·.1), (rs.map (·.2)).flatten, none⟩
 
-/-- `_add_signature_parameter`: the default of an `Optional` parameter without default is `None`;
-    a non-required parameter whose name starts with `_` is skipped -/
+/-- `_add_signature_parameter`, no default in the signature: `if is_optional(annotation): default = None` — for an annotation
+    that is Optional of ANYTHING (`Optional[int]`, `Optional[List[int]]`, `Optional[Dict[..]]`, `Optional[Literal[..]]`, ...) -/
+def normOptD (ty : Ty) (d : Option Val) : Option Val :=
+  match d with
+  | none => if isOptTy ty then some Val.null else none
+  | some v => some v
+
+/-- the same field as one states it on a plain argument: an Optional parameter without default is `default=None`, not required -/
+def normOpt (f : Field) : Field := ⟨f.name, f.ty, normOptD f.ty f.default⟩
+
 def sigParam (f : Field) : Option Field :=
-  let d := match f.default with
-    | none => if f.ty = .optInt then some Val.null else none
-    | some v => some v
+  let d := normOptD f.ty f.default
   if d.isSome && f.name.front = '_' then none else some ⟨f.name, f.ty, d⟩
 
 /-- style 3: `parser.add_class_arguments(Class, key)` — `_add_signature_arguments`: the group gets an
@@ -488,11 +524,13 @@ def declInnerParser (key : String) (fields : List Field) : Table :=
 inductive Style where | dotted | dataclass | classArgs | inner
 deriving DecidableEq, Repr, Inhabited
 
+/-- the four declarations of ONE field list: the dotted and inner-parser styles state an Optional field without default as
+    `default=None` (`normOpt`), which is what the signature styles derive from the annotation -/
 def decl : Style → String → List Field → Table
-  | .dotted => declDotted
+  | .dotted => fun key fields => declDotted key (fields.map normOpt)
   | .dataclass => declDataclass
   | .classArgs => declClassArgs
-  | .inner => declInnerParser
+  | .inner => fun key fields => declInnerParser key (fields.map normOpt)
 
 /-- the parser spec tree the table amounts to (for `validate`) -/
 def specOf (key : String) (t : Table) : Fields :=
